@@ -29,6 +29,7 @@ SPEC = dict(
         "hand-written model coq/models/Registry.v of registry/registry.go and registry/transaction.go, tied by the differential run (harness/overlay/zzverif/c30/main.go)",
         "JSON encoding is not modelled (scalars opaque, objects = key-sorted association lists); the schema is a driver-side registry.Schema implementation rejecting the number 99, modelled as Registry.drv_valid; in the theorems the schema is an arbitrary predicate",
     ],
-    assumptions=["PARTIAL model scope: requests whose matching rules leave an unfilled {placeholder} in the unmatched suffix / storage path, and Sets whose unmatched suffixes are prefixes of one another, are outside the model (the model answers RUnsupported and the comparison skips the step); there the real code is only monitored for access violations",
+    assumptions=["PARTIAL: read-after-write through the view is proved rule by rule, for nested pairs, and as 'Get returns the merge of the written parts'; that this merge rebuilds the value is not proved. Outside the compared model (RUnsupported, step skipped): a Set whose suffix placeholder is already filled in the storage path (same placeholder name twice in one request pattern; outcome depends on Go map order). Order-dependent Sets (one unmatched suffix a prefix of another) are compared as a relation: accepted-with-these-writes or BadRequest-with-nothing",
+                 "single-letter keys (a key >= 1000 in a databag path stands for a {placeholder} sub-key, as the text {x} does in the Go code)",
                  "request and value keys are valid sub-keys; values contain no arrays"],
 )
